@@ -17,7 +17,8 @@ def sh(cmd, cwd=None):
     return r.returncode, r.stdout
 
 sh(f"git -C /repo worktree remove --force {WT}")
-rc, out = sh(f"git -C /repo worktree add -q --detach {WT} HEAD")
+BASE = os.environ.get("CONFIRM_BASE", "HEAD")
+rc, out = sh(f"git -C /repo worktree add -q --detach {WT} {BASE}")
 assert rc == 0, out
 try:
     demos = sorted(glob.glob(os.path.join(src, "demo", "*")))
@@ -56,7 +57,7 @@ try:
     mm = re.search(r"(?i)(trigger|expos|circumstance)[^\n]*\n((?:.+\n){1,6})", readme)
     if mm:
         needs = (mm.group(0)).strip()[:700]
-    meta = dict(property=prop, name=name, base_commit=subprocess.check_output(["git", "-C", "/repo", "rev-parse", "HEAD"], text=True).strip(),
+    meta = dict(property=prop, name=name, base_commit=subprocess.check_output(["git", "-C", "/repo", "rev-parse", BASE], text=True).strip(),
                 what_it_needs_to_manifest=needs or "see README.md",
                 confirmed=dict(worktree=WT, demo_cmd=cmd, demo_on_unchanged_tree="pass", suite_with_patch="pass (go test -vet=off -count=1 ./...)",
                                demo_with_patch="fail", demo_failure_tail=out_demo[-600:]),
